@@ -629,9 +629,40 @@ func runC07(c *Ctx) {
 				}
 			})
 		}
+		// a TLS client connection is handshaken under the dial context before the dial function hands it out (else the
+		// handshake runs inside the first Write, where neither the caller's context nor Close can interrupt it)
+		for _, f := range p.funcsIn(relUpstream) {
+			fn := f
+			eachInstr(f, func(in ssa.Instruction) {
+				ci, ok := in.(*ssa.Call)
+				if !ok || callName(ci) != "crypto/tls.Client" {
+					return
+				}
+				n++
+				var hs ssa.Instruction
+				eachInstr(fn, func(y ssa.Instruction) {
+					if c2, ok := y.(*ssa.Call); ok && callName(c2) == "(*crypto/tls.Conn).HandshakeContext" && c2.Call.Args[0] == ssa.Value(ci) {
+						hs = y
+					}
+				})
+				okHS := hs != nil
+				if okHS {
+					// every non-nil hand-out of the connection comes after the handshake
+					for _, r := range returnsOf(fn) {
+						rv := returnedValues(r)
+						if len(rv) > 0 && !isNilConst(rv[0]) && !instrDominates(hs, r) {
+							okHS = false
+						}
+					}
+				}
+				if !okHS && bad == "" {
+					bad, badPos = "a tls.Client connection that is handed out without HandshakeContext(ctx) in "+funcName(fn), instrPos(in)
+				}
+			})
+		}
 		c.see(p.funcsIn(relUpstream)...)
 		if bad != "" {
-			c.fail("ctx-aware-network-steps@upstream", badPos, "%s ignores the dial context: a server that accepts the connection and then stalls keeps the dial (and every call queued on it) blocked beyond the dial timeout, and Close cannot interrupt it", bad)
+			c.fail("ctx-aware-network-steps@upstream", badPos, "%s — the step ignores the dial context: a server that accepts the connection and then stalls keeps the dial (and every call queued on it) blocked beyond the dial timeout, and Close cannot interrupt it", bad)
 		} else {
 			c.check(n > 0, "ctx-aware-network-steps@upstream", 0, fmt.Sprintf("%d context-taking network steps, no context-less dial or handshake", n), "no context-taking network step found in pkg/upstream")
 		}
